@@ -7,7 +7,7 @@ CONSTANT Step
 VARIABLES ph, st
 Init == ph = "start" /\ st = <<>>
 Pick == /\ ph = "start" /\ ph' = "mid"
-        /\ \E kw \in 1..3, n \in 1..5, bare \in BOOLEAN, sp \in 1..Len(Seps), tight \in BOOLEAN : st' = <<kw, n, bare, sp, tight>>
+        /\ \E kw \in 1..3, n \in 1..5, bare \in BareModes, sp \in 1..Len(Seps), tight \in BOOLEAN : st' = <<kw, n, bare, sp, tight>>
 Emit == /\ ph = "mid" /\ ph' = "case"
         /\ \E i \in 1..Len(FamilySeq), junk \in 0..2 :
              LET ts == Respell(FamilySeq[i], st[1], st[2], st[3])
